@@ -3,6 +3,7 @@ package mc
 import (
 	"fmt"
 	"runtime/debug"
+	"strings"
 	"sync"
 	"sync/atomic"
 	"time"
@@ -15,6 +16,11 @@ import (
 type Case struct {
 	Desc string
 	Run  func(env world.Env) CaseResult
+	// Grouped form (Run == nil): Prep runs once on a fork of the start state, then every Sub runs on its own
+	// fork of the prepared state. At seam B one (case, sub) pair is one fresh node: Setup, Prep, Sub.
+	Prep func(env world.Env)
+	Subs []string
+	Sub  func(env world.Env, sub string) CaseResult
 }
 
 type CaseResult struct {
@@ -41,6 +47,7 @@ type enumFound struct {
 	desc string
 	idx  int
 	n    int
+	sub  string
 }
 
 // AddEnum runs all cases (in parallel over worker-local worlds) and merges the result.
@@ -61,6 +68,7 @@ func (r *Run) AddEnum(e Enum, workers int, deadline time.Time) {
 	timedOut := false
 	var herr []string
 	classOf := make([]string, len(e.Cases))
+	subClass := map[string]string{}
 	for wi := 0; wi < workers; wi++ {
 		wg.Add(1)
 		go func() {
@@ -91,7 +99,30 @@ func (r *Run) AddEnum(e Enum, workers int, deadline time.Time) {
 							mu.Unlock()
 						}
 					}()
-					cr = c.Run(base.Fork())
+					if c.Run != nil {
+						cr = c.Run(base.Fork())
+						return
+					}
+					pe := base.Fork()
+					if c.Prep != nil {
+						c.Prep(pe)
+					}
+					cr.Class = "group"
+					for _, sub := range c.Subs {
+						r := c.Sub(pe.Fork(), sub)
+						cr.Count++
+						if r.Nontrivial {
+							cr.NontrivialCount++
+						}
+						mu.Lock()
+						subClass[c.Desc+"##"+sub] = r.Class
+						classes[r.Class]++
+						mu.Unlock()
+						for _, v := range r.Viols {
+							v.Sub = sub
+							cr.Viols = append(cr.Viols, v)
+						}
+					}
 				}()
 				mu.Lock()
 				if cr.Count > 0 {
@@ -103,7 +134,9 @@ func (r *Run) AddEnum(e Enum, workers int, deadline time.Time) {
 						nontriv++
 					}
 				}
-				classes[cr.Class]++
+				if c.Run != nil {
+					classes[cr.Class]++
+				}
 				classOf[i] = cr.Class
 				for _, v := range cr.Viols {
 					f, ok := found[v.Sig]
@@ -112,7 +145,7 @@ func (r *Run) AddEnum(e Enum, workers int, deadline time.Time) {
 						if ok {
 							n = f.n
 						}
-						found[v.Sig] = &enumFound{v: v, desc: c.Desc, idx: i, n: n + 1}
+						found[v.Sig] = &enumFound{v: v, desc: c.Desc, idx: i, n: n + 1, sub: v.Sub}
 					} else {
 						f.n++
 					}
@@ -140,11 +173,20 @@ func (r *Run) AddEnum(e Enum, workers int, deadline time.Time) {
 			go func(j, i int) {
 				defer wg2.Done()
 				defer func() { <-sem }()
-				cr, err := e.runB(e.Cases[i])
+				c := e.Cases[i]
+				sub, want := "", classOf[i]
+				if c.Run == nil {
+					if len(c.Subs) == 0 {
+						return
+					}
+					sub = c.Subs[(j*7919)%len(c.Subs)]
+					want = subClass[c.Desc+"##"+sub]
+				}
+				cr, err := e.runB(c, sub)
 				if err != nil {
-					out[j] = fmt.Sprintf("case %s: seam B error %v", e.Cases[i].Desc, err)
-				} else if cr.Class != classOf[i] {
-					out[j] = fmt.Sprintf("case %s: outcome class at seam A %q, at seam B %q", e.Cases[i].Desc, classOf[i], cr.Class)
+					out[j] = fmt.Sprintf("case %s %s: seam B error %v", c.Desc, sub, err)
+				} else if cr.Class != want {
+					out[j] = fmt.Sprintf("case %s %s: outcome class at seam A %q, at seam B %q", c.Desc, sub, want, cr.Class)
 				}
 			}(j, i)
 		}
@@ -179,7 +221,7 @@ func (r *Run) AddEnum(e Enum, workers int, deadline time.Time) {
 	for _, sig := range world.SortedKeys(found) {
 		f := found[sig]
 		if e.ConfirmB {
-			cr, err := e.runB(e.Cases[f.idx])
+			cr, err := e.runB(e.Cases[f.idx], f.sub)
 			if err != nil {
 				r.Harness = append(r.Harness, fmt.Sprintf("HARNESS-DIVERGENCE seam B error for case %s: %v", f.desc, err))
 				continue
@@ -195,11 +237,15 @@ func (r *Run) AddEnum(e Enum, workers int, deadline time.Time) {
 				continue
 			}
 		}
-		r.Report(Record{Property: e.Prop, Scenario: e.Name, Kind: "case", Clause: f.v.Clause, Signature: sig, Detail: f.v.Detail, Case: f.desc})
+		desc := f.desc
+		if f.sub != "" {
+			desc += "##" + f.sub
+		}
+		r.Report(Record{Property: e.Prop, Scenario: e.Name, Kind: "case", Clause: f.v.Clause, Signature: sig, Detail: f.v.Detail, Case: desc})
 	}
 }
 
-func (e Enum) runB(c Case) (cr CaseResult, err error) {
+func (e Enum) runB(c Case, sub string) (cr CaseResult, err error) {
 	defer func() {
 		if x := recover(); x != nil {
 			err = fmt.Errorf("panic: %v\n%s", x, debug.Stack())
@@ -210,11 +256,21 @@ func (e Enum) runB(c Case) (cr CaseResult, err error) {
 	if e.Setup != nil {
 		e.Setup(env)
 	}
-	return c.Run(env), nil
+	if c.Run != nil {
+		return c.Run(env), nil
+	}
+	if c.Prep != nil {
+		c.Prep(env)
+	}
+	return c.Sub(env, sub), nil
 }
 
 // ReplayCase re-runs the case with the given description at both seams and reports what it observes.
 func (r *Run) ReplayCase(e Enum, desc string) {
+	sub := ""
+	if i := strings.Index(desc, "##"); i >= 0 {
+		desc, sub = desc[:i], desc[i+2:]
+	}
 	for _, c := range e.Cases {
 		if c.Desc != desc {
 			continue
@@ -224,11 +280,20 @@ func (r *Run) ReplayCase(e Enum, desc string) {
 		if e.Setup != nil {
 			e.Setup(base)
 		}
-		cr := c.Run(base.Fork())
+		var cr CaseResult
+		if c.Run != nil {
+			cr = c.Run(base.Fork())
+		} else {
+			pe := base.Fork()
+			if c.Prep != nil {
+				c.Prep(pe)
+			}
+			cr = c.Sub(pe, sub)
+		}
 		var crb CaseResult
 		if e.ConfirmB {
 			var err error
-			crb, err = e.runB(c)
+			crb, err = e.runB(c, sub)
 			if err != nil {
 				r.Harness = append(r.Harness, err.Error())
 				return
@@ -242,7 +307,11 @@ func (r *Run) ReplayCase(e Enum, desc string) {
 				}
 			}
 			if ok {
-				r.Report(Record{Property: e.Prop, Scenario: e.Name, Kind: "case", Clause: v.Clause, Signature: v.Sig, Detail: v.Detail, Case: desc})
+				full := desc
+				if sub != "" {
+					full += "##" + sub
+				}
+				r.Report(Record{Property: e.Prop, Scenario: e.Name, Kind: "case", Clause: v.Clause, Signature: v.Sig, Detail: v.Detail, Case: full})
 			}
 		}
 		return
